@@ -139,6 +139,10 @@ def worker(job, extra):
     prof = {'p_lattice': 0.0, 'p_ps': 0.0, 'p_exact': 0.0, 'p_kinds': (0.7, 0.1, 0.2, 0.0), 'horizons': [10.0, 20.0], 'p_batch': 0.2,
             'p_renege': 0.3, 'p_prio': 0.4, 'p_cct': 0.1, 'p_ccm': 0.2,
             'p_custom_dist': 0.0}   # time / state dependent distributions are discontinuous in t: a 1e-16 difference legitimately flips a sample
+    if seed % 4 == 1:
+        # a quarter of the pairs: class changes while waiting x pre-emptive priorities x class-dependent service times
+        prof = dict(prof, n_classes=[2, 3], p_cct=1.0, p_prio=1.0, force_distinct_prio=True, p_prio_preempt=1.0,
+                    prio_preempt_opts=['resume', 'restart', 'resample'], p_kinds=(1.0, 0.0, 0.0, 0.0), p_qcap=0.0, arr_scale=0.6)
     spec = job.get('spec') or gen.gen_spec(seed, prof)
     spec['tie'] = 'native'
     k = random.Random(seed).choice([12, 14, 20, 26])
